@@ -17,7 +17,7 @@ D = 16 * U
 
 
 def gen(rng):
-    mode = rng.choice(['idle', 'idle', 'running', 'running', 'closed', 'own', 'mixed', 'idle2run'])
+    mode = rng.choice(['idle', 'idle', 'running', 'running', 'closed', 'own', 'mixed', 'idle2run', 'run2idle'])
     ncall = rng.choice([1, 2, 2, 3, 3])
     callers = []
     for i in range(ncall):
@@ -41,7 +41,22 @@ def gen(rng):
             phase2.append({'start': rng.choice([0, 0, U, D]), 'dur': rng.choice([0, D, 2 * D]),
                            'out': rng.choice(['ret', 'raise']), 'aw': rng.choice(['coro', 'coro', 'task']),
                            'via': rng.choice(['ensure', 'ensure', 'threadsafe']), 'n': 1})
-    return {'mode': mode, 'callers': callers, 'stop_after': rng.choice([0, D, 4 * D]), 'dep': dep, 'phase2': phase2}
+    scen = {'mode': mode, 'callers': callers, 'stop_after': rng.choice([0, D, 4 * D]), 'dep': dep, 'phase2': phase2}
+    if mode == 'run2idle':
+        # history on one loop the other way round: run by loop_in_thread, stopped while it is busy with a long
+        # synchronous callback (0.05-1 s), afterwards used again as an idle target
+        scen['busy'] = rng.choice([0, D, 0.05, 0.25, 0.25, 1.0])
+        scen['busy_gap'] = rng.choice([0, 0, U, 0.05])
+        for i in range(rng.choice([1, 2])):
+            phase2.append({'start': rng.choice([0, 0, U, D]), 'dur': rng.choice([0, D, 2 * D]),
+                           'out': rng.choice(['ret', 'raise']), 'aw': rng.choice(['coro', 'coro', 'task']),
+                           'via': 'ensure', 'n': 1})
+    if mode in ('idle', 'running', 'mixed') and not dep and rng.random() < 0.3:
+        # an earlier target loop of the process has become unreachable garbage (in a reference cycle); the cyclic
+        # collector runs at one line of the per-loop lock bookkeeping, in the thread executing it
+        scen['garbage_target'] = True
+        scen['gc'] = {'thread': rng.choice(['pool', 'pool', 'C', 'main']), 'qual': '_get_loop_lock', 'nth': rng.randint(1, 16)}
+    return scen
 
 
 def _who():
@@ -66,10 +81,24 @@ class EnsureHarness:
                 if not s.dead:
                     log.append(ev + (s.now,))
 
+            if scen.get('garbage_target'):
+                def former_target():
+                    old = aio.new_event_loop()
+                    own = aio.new_event_loop()
+
+                    async def nothing():
+                        return 1
+                    own.run_until_complete(A.ensure_aw(nothing(), old))
+                    own.close()
+                    old.close()
+                    old._verif_cycle = old          # only the cyclic collector can reclaim it now
+                    emit('garbage_target_made')
+                s.spawn(former_target, 'G')
+                s.block(lambda: any(e[0] == 'garbage_target_made' for e in log), s.now + 60.0, 'joinG')
             target = aio.new_event_loop()
             tname = target.sim_name
             stop = None
-            if mode in ('running', 'mixed'):
+            if mode in ('running', 'mixed', 'run2idle'):
                 stop = A.loop_in_thread(target)
                 emit('lit_returned', target.is_running(), target._sim_runners)
             elif mode == 'closed':
@@ -168,7 +197,20 @@ class EnsureHarness:
             # virtual-time bound: generous; expiry means some caller never returned
             s.block(lambda: len(done) == ncall, s.now + 600.0, 'join')
             emit('joined', len(done) == ncall)
-            if scen.get('phase2') and len(done) == ncall:
+            if mode == 'run2idle' and len(done) == ncall:
+                if scen['busy']:
+                    target.call_soon_threadsafe(lambda: (emit('busy_start'), simrt.sim_sleep(scen['busy']), emit('busy_end')))
+                    if scen['busy_gap']:
+                        s.sleep(scen['busy_gap'])
+                stop()
+                emit('stop_returned', target.is_running(), target._sim_runners)
+                stop = None
+                for j, c in enumerate(scen['phase2']):
+                    s.spawn(caller(ncall + j, c), f'C{ncall + j}')
+                n2 = ncall + len(scen['phase2'])
+                s.block(lambda: len(done) == n2, s.now + 600.0, 'join2')
+                emit('joined', len(done) == n2)
+            elif scen.get('phase2') and len(done) == ncall:
                 stop = A.loop_in_thread(target)
                 emit('lit_returned', target.is_running(), target._sim_runners)
                 box2['stop'] = stop
@@ -188,6 +230,13 @@ class EnsureHarness:
         def pre(s):
             if delays and hasattr(s, 'line_delays'):
                 s.line_delays = [dict(d) for d in delays]
+            if scen.get('gc') and hasattr(s, 'line_delays'):
+                import gc
+
+                def collect():
+                    s.log.append(('gc', s.now))
+                    gc.collect()
+                s.line_delays = list(s.line_delays) + [dict(scen['gc'], fn=collect)]
 
         return self.execute(main, strategy, max_steps=150000, watchdog=60.0, pre=pre)
 
@@ -200,8 +249,8 @@ class C17(Check):
     assumptions = [
         'Engine A: the shared thread pool, threading.Lock, the per-loop lock table and time.sleep inside aiuti.asyncio are '
         'sim equivalents; fresh loops every execution so the double-checked creation of the per-loop lock is exercised',
-        'a caller whose awaitable never completed because another caller\'s helper stopped the idle target loop is counted '
-        '(orphaned_on_stopped_loop) but not a refutation: the statement promises completion only when the awaitable completes',
+        'the harness\'s awaitables (outside the unjudged dependent pairs) finish whenever they are evaluated, so a caller that is '
+        'blocked for ever at a dead-lock / at the virtual-time horizon is a refutation whether or not its awaitable was started',
     ]
     rule = ('cases = 1-3 caller threads (each its own loop, 1-2 calls) targeting one loop that is idle, running via '
             'loop_in_thread, closed, or the caller\'s own; awaitables as coroutine / future / task returning, raising or '
@@ -265,6 +314,10 @@ class C17(Check):
         st['executions'] += 1
         mode = scen['mode']
         st[f'target_{mode}'] += 1
+        if any(e[0] == 'gc' for e in r.log):
+            st['gc_run_inside_loop_lock_bookkeeping'] += 1
+        if any(e[0] == 'busy_end' for e in r.log):
+            st['stopped_while_busy_then_used_idle'] += 1
         if r.sched.delays_fired:
             st['long_delay_injected'] += 1
         if scen.get('dep'):
@@ -297,8 +350,13 @@ class C17(Check):
                 if aid in ends:
                     res.violate('C17:caller-never-returns', 'the awaitable completed on the target but its caller never returned',
                                 aid=aid, verdict=r.verdict, blocked=r.blocked)
+                elif r.verdict in ('deadlock', 'timebound'):
+                    # the harness's awaitables are independent of each other and finish whenever they are evaluated:
+                    # one that is never evaluated to its end was not given to its caller
+                    res.violate('C17:never-evaluated', 'an awaitable that completes whenever it is run was never run to its end; '
+                                'its caller is blocked for ever', aid=aid, verdict=r.verdict, started=aid in starts, blocked=r.blocked)
                 else:
-                    st['orphaned_on_stopped_loop'] += 1
+                    st['unreturned_at_stepbound'] += 1
                 continue
             kind, val = rr[1][2], rr[1][3]
             exp = ('exc', aid) if spec['out'] == 'raise' else ('val', ('r', aid))
@@ -343,7 +401,7 @@ class C17(Check):
         k = 1 if tier == 'quick' else 15
         return {'nontrivial': 8000 * k, 'branch_idle': 4000 * k, 'branch_running': 4000 * k, 'branch_own': 1500 * k,
                 'closed_target_calls': 1500 * k, 'loop_in_thread_checked': 4000 * k, 'stop_checked': 4000 * k,
-                'outcome_exc': 3000 * k}
+                'outcome_exc': 3000 * k, 'gc_run_inside_loop_lock_bookkeeping': 500 * k, 'stopped_while_busy_then_used_idle': 1000 * k}
 
 
 def get_check(pid):
